@@ -19,6 +19,7 @@
    Part I  config.validateKeys: total on a non-nil file, accepts iff names non-empty, distinct,
            default (when set) non-empty and among them
    Part J  crl.checkExpiry
+   Part K  getVerificationPlugin: name non-blank iff no error                  (s_pattr)
 
    props/C12_Generated.v states the theorems and closes each with [exact]. *)
 From Coq Require Import List Bool String Ascii NArith ZArith Lia.
@@ -731,7 +732,7 @@ Qed.
 Theorem gen_checkExpiry_spec now next :
   gen_crl_checkExpiry now next
   = if time_is_zero next then Some (Err "errors" "crl bundle retrieved from file cache does not contain valid NextUpdate" [])
-    else if (now >? next)%Z then Some (Err "errors" "cache miss" [])
+    else if (now >? next)%Z then crl_ErrCacheMiss   (* the sentinel of notation-core-go: a cache miss *)
     else None.
 Proof. reflexivity. Qed.
 
